@@ -54,7 +54,8 @@ def stop_set(fx):
             st.add(p)
     # trait-object / driver entry points and the updater implementations are role boundaries, not helpers
     for p in fx.fns:
-        if p.startswith("<") and (" as libxcp::drivers::CopyDriver>" in p or " as libxcp::feedback::StatusUpdater>" in p):
+        if p.startswith("<") and (" as libxcp::drivers::CopyDriver>" in p or " as libxcp::feedback::StatusUpdater>" in p) \
+                and not fx.fns[p].is_closure:
             st.add(p)
     _cache[k] = st
     return st
